@@ -281,6 +281,11 @@ def op_has_argument(opcode: int, opc) -> bool:
     """
     Return True if `opcode` instruction has an operand.
     """
+    if hasattr(opc, "ARG_OPS") and opc.version_tuple >= (3, 13):
+        # There is an explicit list since 3.12, and from 3.13 on it is
+        # needed: WITH_EXCEPT_START is numbered HAVE_ARGUMENT but has no
+        # operand.
+        return opcode in opc.ARG_OPS
     return opcode >= opc.HAVE_ARGUMENT
 
 
